@@ -46,9 +46,13 @@ def semantic_counterexample(f, r, rng):
     if fsize(f) > 14:
         return None           # the reference evaluator is exponential in the formula: witnesses are searched for small formulas only
     t_end = time.time() + 3.0
+    names = sorted(fatoms(f))
+    m = dict(zip(('p', 'q'), names)) if (names and not set(names) <= {'p', 'q'}) else None
     for kd in _SEARCH:
         if time.time() > t_end:
             return None
+        if m:           # the structures are labelled with the formula's own atom names
+            kd = dict(kd, L={s_: [m.get(a, a) for a in ls] for s_, ls in kd['L'].items()})
         for a, b in pairs:
             try:
                 if ref_check(kd, a) != ref_check(kd, b):
@@ -82,6 +86,19 @@ def run(R):
         items.append(('CTL', rand_ctl(rng, d)))
         items.append(('LTL', rand_path(rng, d)))
         items.append(('CTLS', rand_path(rng, d, quant=True)))
+    # atom names that are not identifiers (blanks, operators, brackets, quotes, printed formulas, reserved words): the rewriting may
+    # not look at, let alone change, the NAME of an atom - the model treats names as opaque strings
+    EXOTIC = ['door open', 'x>0', 'not p', '(p or q)', 'p U q', '"q"', 'A', 'true', '', ' p', 'p ', 'a.b', "it's", '[E(X(p))]', 'fair0']
+
+    def ren(f, m):
+        if f[0] == 'ap':
+            return ('ap', m.get(f[1], f[1]))
+        if f[0] in ('true', 'false'):
+            return f
+        return (f[0],) + tuple(ren(g, m) for g in f[1:])
+    for logic, f in rng.sample(items, min(len(items), 6000 if R.thorough else 700)):
+        m = dict(zip(('p', 'q'), rng.sample(EXOTIC, 2)))
+        items.append((logic, ren(f, m)))
     cmds, meta = [], []
     for logic, f in items:
         L = {'CTL': CTL, 'LTL': LTL, 'CTLS': CTLS}[logic]
